@@ -45,6 +45,8 @@ fixed('F10', ['C12'], 'A20', 'adsg_core.optimization.assign_enc.selector:Encoder
       "ValueError 'assignment destination is read-only' under pandas copy-on-write as soon as two candidates tie (the 4 baseline-failing tests)", 'baseline', 'copy the distance-correlation')
 fixed('F16', ['C20'], 'A10d', 'adsg_core.graph.sup.dsg:SupSelChoiceOptionMapping.resolve:A10d:self._mapping:node.str_context',
       "resolve() raised AttributeError ('NoneType' has no attribute 'str_context') for every source architecture in which a conditionally active, mapped source choice is active - the mandatory None entry of the mapping was dereferenced", 'witness/w16', 'skips the None (inactive) entry')
+fixed('F17', ['C07'], 'A5f', 'adsg_core.optimization.assign_enc.encoding:EagerEncoder.get_design_variables:A5f:every-pattern-merged',
+      'a connection variable not flagged conditionally active was inactive in a valid design (S0(0..2) -> [T0(0..2, conditional), T1(1)], Direct Matrix eager encoder: x=[0,0] reports CC_0 inactive, flag False): existence patterns needing no variable were skipped when merging the flags', 'witness/w17', 'flag their variables conditionally active')
 known('F7', ['C07', 'C03'], 'A6', 'adsg_core.optimization.assign_enc.encoding:EagerEncoder.get_matrix:A6:raw-vector-returned:return (list(vector) + extra_vector, matrix[i_mat, :, :])',
       'on a direct hit the eager encoder returns the input vector instead of the stored -1-marked one, so conditionally inactive variables are reported active (30 vectors in witness/w07)',
       'witness/w07', 'returning the stored vector changes what is_valid_vector(get_matrix(x)[0]) answers and breaks 6 existing tests; not a small repair')
